@@ -27,8 +27,13 @@ import (
 
 const nWorkers = 16
 
+var scratchDir string
+
 func fatal(format string, a ...any) {
 	fmt.Fprintf(os.Stderr, "c04: harness error: "+format+"\n", a...)
+	if scratchDir != "" {
+		os.RemoveAll(scratchDir)
+	}
 	os.Exit(2)
 }
 
@@ -201,6 +206,7 @@ func main() {
 	if err != nil {
 		fatal("%v", err)
 	}
+	scratchDir = scratch
 	defer os.RemoveAll(scratch)
 
 	if rp := ev.Arg("--replay"); rp != "" {
